@@ -413,14 +413,24 @@ pub async fn scenario() {
 		builder = builder.enable_ws_ping(p);
 	}
 	let sub_buf = *rt::pick("sub_buf", &[1024usize, 1, 2]);
-	let client = Arc::new(
-		builder
-			.max_buffer_capacity_per_subscription(sub_buf)
-			.max_concurrent_requests(max_conc)
-			.id_format(if id_kind_str { IdKind::String } else { IdKind::Number })
-			.request_timeout(req_timeout)
-			.build_with_tokio(tx, rx),
-	);
+	let builder = builder
+		.max_buffer_capacity_per_subscription(sub_buf)
+		.max_concurrent_requests(max_conc)
+		.id_format(if id_kind_str { IdKind::String } else { IdKind::Number })
+		.request_timeout(req_timeout);
+	// a second client built from a clone of the same builder, with a connection and a (friendly) peer of its own: the
+	// two have nothing in common, though both start counting their request ids at 0
+	let twin = if rt::chance("twin_client", 1, 5) {
+		rt::probe("twin_client");
+		let (wire2, tx2, rx2) = Wire::new();
+		let client2 = Arc::new(builder.clone().build_with_tokio(tx2, rx2));
+		let log2: Arc<Mutex<PeerLog>> = Arc::default();
+		let peer2 = spawn_peer(wire2.clone(), log2.clone(), PeerCfg { hostile: false, id_kind_str });
+		Some((wire2, client2, log2, peer2))
+	} else {
+		None
+	};
+	let client = Arc::new(builder.build_with_tokio(tx, rx));
 
 	let ops: Arc<Mutex<Vec<OpRec>>> = Arc::default();
 	let peer_log: Arc<Mutex<PeerLog>> = Arc::default();
@@ -448,11 +458,31 @@ pub async fn scenario() {
 			drop(held);
 		}));
 	}
+	// the twin's own front-end runs concurrently with the others
+	let twin_ops: Arc<Mutex<Vec<OpRec>>> = Arc::default();
+	let twin_nonce = Arc::new(std::sync::atomic::AtomicU64::new(5000));
+	if let Some((_, client2, _, _)) = &twin {
+		let (client2, twin_ops, twin_nonce) = (client2.clone(), twin_ops.clone(), twin_nonce.clone());
+		let n_ops = rt::draw_range("twin_ops", 1, 3);
+		hs.push(rt::spawn("front-twin", async move {
+			let mut held: Vec<Subscription<Value>> = Vec::new();
+			for _ in 0..n_ops {
+				let op = if rt::chance("twin_batch", 1, 4) { PlanOp::Batch(2) } else { PlanOp::Call };
+				let rec = run_op(&client2, 77, &op, &twin_nonce, &mut held).await;
+				twin_ops.lock().unwrap().push(rec);
+			}
+		}));
+	}
 	for h in hs {
 		let _ = h.await;
 	}
 	// ---------------- oracle ----------------
 	check(&wire, &ops.lock().unwrap(), &peer_log.lock().unwrap(), hostile);
+	if let Some((wire2, client2, log2, peer2)) = twin {
+		check(&wire2, &twin_ops.lock().unwrap(), &log2.lock().unwrap(), false);
+		drop(client2);
+		let _ = peer2.await;
+	}
 	drop(client);
 	let _ = peer.await;
 }
